@@ -15,6 +15,7 @@ CONSTANTS
   CacheSetBeforeInsert = FALSE
   CacheKeyIgnoresType = FALSE
   ReaderFiltersType = TRUE
+  Guided = FALSE
   ExportView = FALSE
 INVARIANTS TypeOK AckedReadable RetryIdempotentEnough RefusedResidue NoPhantom SearchImpliesFetch NoCrossSignal AckedStored
 CHECK_DEADLOCK FALSE
